@@ -106,6 +106,8 @@ Sink ==
         LET t == Top.f.stack[Len(Top.f.stack)] IN t.v.s = Ev.safe /\ KindEq(t.v.k, KindOf(Ev.k)))
   /\ IF Ev.ae # Top.ae THEN Flag("AutoescapeStableInFrame")
      ELSE IF Ev.esc # (Ev.ae /\ ~Ev.safe) THEN Flag("SinkRule")
+     \* what counts as safe is not the engine's to widen: containers and bytes carry data characters and are never safe
+     ELSE IF Ev.safe /\ Ev.k \in {"array", "map/struct", "bytes"} THEN Flag("SinkRule")
      ELSE UNCHANGED bad
   /\ UNCHANGED <<frames, xae, mode>>
 
